@@ -56,6 +56,9 @@ pub enum IOp {
     /// types: give item #k a name (`types.get_mut(id).name = ...`); the signature, which is what the
     /// collection de-duplicates on, does not change
     Rename(usize),
+    /// `emit_wasm()` between the other operations: serialising is not an edit, every id keeps
+    /// denoting what it denoted
+    Emit,
 }
 
 pub struct IdObj {
@@ -174,8 +177,11 @@ fn add(coll: &str, o: &mut IdObj, v: usize) -> (AnyId, String) {
             }
         }
         "customs" => {
-            let id = m.customs.add(RawCustomSection { name: format!("c{}_{}", s, v), data: vec![s as u8, v as u8] });
-            (AnyId::C(id.into()), format!("custom c{}_{} {:?}", s, v, vec![s as u8, v as u8]))
+            // value 1: a name a DWARF-producing tool would use (walrus does not emit such sections
+            // itself unless it generates DWARF, but the collection holds them like any other)
+            let name = if v == 1 { format!(".debug_c{}", s) } else { format!("c{}_{}", s, v) };
+            let id = m.customs.add(RawCustomSection { name: name.clone(), data: vec![s as u8, v as u8] });
+            (AnyId::C(id.into()), format!("custom {} {:?}", name, vec![s as u8, v as u8]))
         }
         "locals" => {
             let ty = [ValType::I32, ValType::I64, ValType::F32][v % 3];
@@ -378,7 +384,7 @@ impl Subject for IdSubject {
                     live.push(true);
                 }
                 IOp::Delete(k) | IOp::RemoveNamed(k) => live[*k] = false,
-                IOp::Rename(_) => {}
+                IOp::Rename(_) | IOp::Emit => {}
                 IOp::RemoveRaw => {
                     if let Some(k) = (0..live.len()).find(|k| live[*k] && raw[*k]) {
                         live[k] = false;
@@ -392,6 +398,9 @@ impl Subject for IdSubject {
         let nv = if self.coll == "types" || self.coll == "locals" { 3 } else { 2 };
         let by_name = self.coll == "exports" || (self.coll == "imports" && !self.mixed_kinds);
         let mut ops: Vec<IOp> = if self.shared_names { vec![IOp::Add(10), IOp::Add(11), IOp::RemoveRaw] } else if self.mixed_kinds { vec![IOp::Add(20), IOp::Add(21)] } else { (0..nv).map(IOp::Add).collect() };
+        if !matches!(self.coll, "locals" | "funcs") && !self.with_function && hist.last() != Some(&IOp::Emit) {
+            ops.push(IOp::Emit);
+        }
         if self.coll != "locals" {
             for (k, l) in live.iter().enumerate() {
                 if *l {
@@ -448,6 +457,10 @@ impl Subject for IdSubject {
                         o.issued[*k].1 = Some(np);
                     }
                 }
+            }
+            IOp::Emit => {
+                // a panic or an invalid module here is C02's business; only the ids are looked at afterwards
+                let _ = catch_unwind(AssertUnwindSafe(|| o.m.emit_wasm()));
             }
             IOp::RemoveNamed(k) => {
                 let payload = o.issued[*k].1.clone().unwrap_or_default();
@@ -612,7 +625,7 @@ impl Subject for IdSubject {
 }
 
 fn hist_json(h: &[IOp]) -> serde_json::Value {
-    json!(h.iter().map(|o| match o { IOp::Add(v) => format!("add {}", v), IOp::Delete(k) => format!("delete #{}", k), IOp::RemoveRaw => "remove_raw".to_string(), IOp::RemoveNamed(k) => format!("remove-named #{}", k), IOp::Rename(k) => format!("rename #{}", k) }).collect::<Vec<_>>())
+    json!(h.iter().map(|o| match o { IOp::Add(v) => format!("add {}", v), IOp::Delete(k) => format!("delete #{}", k), IOp::RemoveRaw => "remove_raw".to_string(), IOp::RemoveNamed(k) => format!("remove-named #{}", k), IOp::Rename(k) => format!("rename #{}", k), IOp::Emit => "emit".to_string() }).collect::<Vec<_>>())
 }
 fn hist_of(v: &serde_json::Value) -> Vec<IOp> {
     v.as_array()
@@ -626,6 +639,8 @@ fn hist_of(v: &serde_json::Value) -> Vec<IOp> {
                         Some(IOp::RemoveNamed(k.parse().ok()?))
                     } else if s == "remove_raw" {
                         Some(IOp::RemoveRaw)
+                    } else if s == "emit" {
+                        Some(IOp::Emit)
                     } else if let Some(v) = s.strip_prefix("add ") {
                         Some(IOp::Add(v.parse().ok()?))
                     } else {
